@@ -7,7 +7,7 @@ CONSTANTS
   ClearCountsRows = TRUE
   MCModes <- ModesAPS
   MCWidths <- W1
-  MCGaps <- GapOn
+  MCGaps <- Gaps2
   MCFormats <- FmtCustom
   MCMax <- MaxOne
   Ticks <- TicksQ
@@ -15,6 +15,10 @@ CONSTANTS
   AdvArgs <- AdvQ
   SetArgs <- SetQ
   Msgs <- MsgsQ
+  MCFreq = 2
+  Switch <- SwitchQ
+  Rewidth <- RewidthQ
+  Charsets <- CharsQ
   Depth = 3
 VIEW HView
 PROPERTY PFrameShape
